@@ -256,3 +256,18 @@ Proof.
   - destruct (validate p (facts_of (d_ctx e) (d_ke e) m)); eauto.
   - eauto.
 Qed.
+
+(* 5. MAX (PARTIAL).  Full statement wanted: decode_with e VP_MAX b = the MAX decoder of C04 (decode_max) on
+   every byte string.  Proved: whenever the figures of the decoded script are within MAX's limits (depth <= 402,
+   the rest <= usize::MAX).  Missing: that the decoder's result always has them — depth <= 402 is enforced by
+   from_ast at every inner node (in terms of CodecExt.tree_height, not yet related to ExtModel's field here) and
+   the other figures are usize values in the code but unbounded N in ExtModel.  The tie compares the MAX row of
+   every sampled byte string. *)
+Theorem decode_with_max_partial e b m :
+  decode_max e b = OOk m -> (forall l, within l VP_MAX (facts_of (d_ctx e) (d_ke e) m)) ->
+  decode_with e VP_MAX b = DpOk m.
+Proof.
+  intros D W. apply decode_with_ok_iff. split; [exact D|].
+  rewrite ValidateExact.validate_all_on; [apply ValidateExact.limit_verdict_within; exact W|].
+  intros []; reflexivity.
+Qed.
